@@ -923,9 +923,10 @@ def selftest(repo):
         ("        if not cur_chunk:\n            break", "        if len(cur_chunk) < size:\n            break"),
         ("        ret = [redundant_groups[k][1] for k in redundant_order]", "        ret = [redundant_groups[k][0] for k in redundant_order]"),
     ]
-    seen = 0
+    seen = skipped = 0
     for old, new in perturbations:
         if src.count(old) != 1:
+            skipped += 1        # this spot of the source has been rewritten: perturbation not applicable
             continue
         with tempfile.TemporaryDirectory() as d:
             os.makedirs(os.path.join(d, "boltons"))
@@ -937,7 +938,7 @@ def selftest(repo):
                 continue
             if out.split("\n", 1)[1] != base.split("\n", 1)[1]:
                 seen += 1
-    return seen, len(perturbations)
+    return seen, len(perturbations) - skipped
 
 
 if __name__ == "__main__":
